@@ -2,10 +2,12 @@
 mod chain;
 mod engine;
 mod gag;
+mod hb;
 mod hist;
 mod model;
 mod powmodel;
 mod props;
+mod snapshot;
 mod sut;
 
 use engine::{run_property, RunArgs, Tier};
@@ -81,6 +83,7 @@ fn main() {
         "C05" => run_property(props::c05::C05, args),
         "C06" => run_property(props::c06::C06, args),
         "C07" => run_property(props::c07::C07, args),
+        "C08" => run_property(props::c08::C08, args),
         "C11" => run_property(props::c11::C11, args),
         "C12" => run_property(props::c12::C12, args),
         "C15" => run_property(props::c15::C15, args),
